@@ -36,6 +36,10 @@ def run(ctx):
     r39(ctx)
     r311(ctx, core)
     r313(ctx, core)
+    r317(ctx)
+    from . import c01 as _c01b, callsigs as _csb
+    _c01b.r16(ctx, core)
+    _csb.scratch_buffer_rule(ctx, 'R3.18')
     r315(ctx, core)
     r316(ctx, core, comp)
     from . import c01 as _c01
@@ -457,3 +461,30 @@ def r316(ctx, core, comp, rule='R3.16'):
                 ctx.ob(rule, 'core.%s:decompressed-bytes-wrapped-before-slicing:%s' % (q, norm(x)[:40]), not bad,
                        '`%s` slices the direct result of decompress_data, which for LZ4/LZO is not an array' % norm(x), core.loc(x))
     ctx.stat('%s slices of names bound to decompress_data results' % rule, n)
+
+
+def r317(ctx, rule='R3.17'):
+    """writers mark a leaf schema element with num_children absent *or* 0: every test of num_children in the package
+    treats the two alike (membership in [None, 0], truthiness, or an explicit disjunction)"""
+    n = 0
+    for mname in ('api', 'schema', 'core', 'util', 'writer', 'converted_types'):
+        m = ctx.repo[mname]
+        for q, f in m.funcs.items():
+            for x in walk_no_nested(f):
+                if isinstance(x, ast.Compare) and isinstance(x.left, ast.Attribute) and x.left.attr == 'num_children' and len(x.ops) == 1:
+                    op, c = x.ops[0], x.comparators[0]
+                    n += 1
+                    ok = True
+                    if isinstance(op, (ast.Is, ast.IsNot, ast.Eq, ast.NotEq)) and isinstance(c, ast.Constant) and c.value in (None, 0):
+                        # a bare comparison with one of the two spellings: fine only inside a disjunction with the other
+                        par = [b for b in walk_no_nested(f) if isinstance(b, ast.BoolOp) and any(v is x for v in b.values)]
+                        other = 0 if c.value is None else None
+                        ok = any(any(isinstance(v, ast.Compare) and isinstance(v.left, ast.Attribute) and v.left.attr == 'num_children'
+                                     and isinstance(v.comparators[0], ast.Constant) and v.comparators[0].value is other
+                                     or (isinstance(v, ast.UnaryOp) and 'num_children' in norm(v)) for v in b.values) for b in par)
+                    elif isinstance(op, (ast.In, ast.NotIn)) and isinstance(c, (ast.List, ast.Tuple, ast.Set)):
+                        vals = [e.value for e in c.elts if isinstance(e, ast.Constant)]
+                        ok = None in vals and 0 in vals
+                    ctx.ob(rule, '%s.%s:leaf-test-treats-absent-and-zero-children-alike:%s' % (mname, q, norm(x)[:40]), ok,
+                           '`%s`: some writers put num_children=0 on leaves; a test for one spelling only takes their leaves for groups' % norm(x), m.loc(x))
+    ctx.floor(rule, 'tests of num_children', n, 2)
